@@ -49,6 +49,8 @@ def gen_path(rnd, sd):
     wmax = max(e['width'] for e in els) + 2 * max(abs(e['offset']) for e in els)
     L = lambda: rnd.randrange(80, 160) * G     # noqa: E731   long segments (>= 4 widths)
     last = None
+    # turns sharper than 90 degrees (up to 140): plain polylines without offsets, where the centre line cannot fold
+    sharp = style == 'polyline' and all(e['offset'] == 0 for e in els) and rnd.random() < 0.5
 
     def direction():
         nonlocal last
@@ -65,6 +67,8 @@ def gen_path(rnd, sd):
             dot = d[0] * last[0] + d[1] * last[1]
             cross = d[0] * last[1] - d[1] * last[0]
             if dot >= 0 and cross != 0:
+                break
+            if sharp and cross != 0 and dot >= -0.76 * math.hypot(*d) * math.hypot(*last):
                 break
         last = d
         return d
@@ -189,7 +193,7 @@ def gen_path(rnd, sd):
                 d2 = direction()
                 calls.append(('commands', ['l', d[0], d[1], 'l', d2[0], d2[1]], {}))
                 cx, cy = cx + d[0] + d2[0], cy + d[1] + d2[1]
-    return {'p0': p0, 'tol': tol, 'elements': els, 'simple': simple, 'scale_width': True, 'calls': calls, 'rep': None, 'props': []}
+    return {'p0': p0, 'tol': tol, 'elements': els, 'simple': simple, 'scale_width': True, 'calls': calls, 'rep': None, 'props': [], 'sharp': sharp}
 
 
 def make_case(i):
@@ -211,7 +215,7 @@ def make_case(i):
         c.op('filehex', 'p.gds')
         c.op('write_oas', 'l0', 'p.oas', fl(0.0), 0, 0)
         c.op('filehex', 'p.oas')
-    c.meta = {'seed': sd, 'path': fp}
+    c.meta = {'seed': sd, 'path': fp, 'sharp': fp['sharp']}
     return c
 
 
@@ -429,7 +433,16 @@ def judge(chk, c, evs):
         # cap extension of the centre line (how far the outline may reach beyond the end points)
         cap0 = {0: 0.0, 1: hw[0], 2: hw[0], 3: max(0.0, e['ext'][0])}.get(end_t, hw[0])
         cap1 = {0: 0.0, 1: hw[-1], 2: hw[-1], 3: max(0.0, e['ext'][1])}.get(end_t, hw[-1])
-        reach = (1.0 if join == 3 else 1.0 / max(math.cos(min(maxturn, math.radians(100)) / 2), 0.3)) * max(hw)
+        # reach of the join: round and bevel joins stay within half the width, a miter reaches hw/cos(turn/2), a natural join is a miter up
+        # to 90 degrees and two points hw beyond the corner after that (sqrt(2) hw from the vertex)
+        tcap = math.radians(141) if m.get('sharp') else math.radians(100)
+        teff = min(maxturn + (0.06 if m.get('sharp') and len(set(hw)) > 1 else 0.0), tcap)
+        reach = 1.0 if join == 3 else 1.0 / max(math.cos(teff / 2), 0.3)
+        if m.get('sharp') and join == 2:
+            reach = 1.0
+        if m.get('sharp') and join == 0:
+            reach = min(reach, math.sqrt(2.0) * 1.03)
+        reach *= max(hw)
         if spec['bend']:
             reach = max(reach, max(hw) * 1.5)
         seglen = [math.hypot(cl[k + 1][0] - cl[k][0], cl[k + 1][1] - cl[k][1]) for k in range(nseg)]
@@ -485,6 +498,29 @@ def judge(chk, c, evs):
                         chk.violation('C07/outline/excess', 'element %d (half width %g, join %d, end %d): point (%.6g,%.6g) is %.4g from the (cap-extended) centre line, '
                                       'beyond the reach %.4g of the join/end style, but inside the outline' % (ei, max(hw), join, end_t, px, py, dext, reach), rp)
                         return
+        # outer side of every real corner: the points just inside the two offset corners (0.85 of the half width from the vertex, at right
+        # angles to either adjacent segment) are closer than half the width to the centre line whatever the join type
+        if not spec['bend']:
+            for k in range(1, nseg):
+                if turns[k] < 0.3 or seglen[k - 1] < 3 * hw[k] or seglen[k] < 3 * hw[k]:
+                    continue
+                a = (cl[k][0] - cl[k - 1][0], cl[k][1] - cl[k - 1][1])
+                b = (cl[k + 1][0] - cl[k][0], cl[k + 1][1] - cl[k][1])
+                outer = -1.0 if a[0] * b[1] - a[1] * b[0] > 0 else 1.0     # left turn: the outer side is on the right
+                lat = 0.85 * hw[k] - 2 * tol
+                if lat <= 0:
+                    continue
+                for (dx, dy), ln, back in ((a, seglen[k - 1], -1.0), (b, seglen[k], 1.0)):
+                    ux, uy = dx / ln, dy / ln
+                    px = cl[k][0] + outer * lat * (-uy) + back * 0.02 * hw[k] * ux
+                    py = cl[k][1] + outer * lat * ux + back * 0.02 * hw[k] * uy
+                    if geom.fwinding(poly, px, py) == 0:
+                        chk.violation('C07/outline/corner-gap', 'element %d (half width %g, join %d): point (%.6g,%.6g), %.4g to the outer side of corner %d '
+                                      '(turn %.1f degrees), is outside the outline' % (ei, hw[k], join, px, py, lat, k, math.degrees(turns[k])), rp)
+                        return
+                    chk.cov('corner_probes')
+                if turns[k] > math.radians(95):
+                    chk.cov('sharp_corners_probed')
         # end planes: flush ends stop at the end point, extended ends reach exactly their extension
         if seglen[0] > 0 and end_t in (0, 1, 2, 3):
             for which in (0, 1):
